@@ -133,6 +133,18 @@ func init() {
 			}
 		}
 		first = ""
+		// key-value groups of several pairs, on a context that was used and Reset before: every pair keeps its own
+		// key and value (the slots of the key-value buffer are reused across renders)
+		for _, src := range []string{`{%= v|vcat({a: "1", b: w, c: "3"}, "tail") %}`, `{%= v|vcat({k1: w}, {k2: "x", k3: v}) %}|{%= w|vcat({z: "9", y: v}) %}`,
+			`{%= v|vcat({a: "1", b: "2"}) %}{%= v|vcat({c: "3", d: "4", e: w}) %}`} {
+			for vi := range vals {
+				c := &RCase{Tpls: []TplDef{{Key: "main", Src: src, KeepFmt: true}, {Key: "other", Src: `{%= w|vcat({p: "0"}, {q: v, r: "r"}) %}`, KeepFmt: true}}, Meta: map[string]any{"kv-groups": src}}
+				c.Ops = []SOp{vals[vi], ws[vi%len(ws)], {Kind: "render", Key: "main"}, {Kind: "render", Key: "other"}, {Kind: "reset"}, vals[vi], ws[(vi+1)%len(ws)],
+					{Kind: "render", Key: "main"}, {Kind: "reset"}, vals[(vi+1)%len(vals)], ws[vi%len(ws)], {Kind: "render", Key: "other"}, {Kind: "render", Key: "main"}}
+				cases = append(cases, c)
+				r.Dist["kv-groups"]++
+			}
+		}
 		runSessions(r, cases, outputDiffers)
 	}
 }
